@@ -27,6 +27,7 @@ type Obl struct {
 	Cover bool
 	Pos   string
 	Blk   int // block in which the obligation arises (-1: none)
+	NFact int // number of facts generated before the obligation
 	Prop  string // restrict to property (optional)
 	// results
 	Status     string // proved, failed, unknown, cover-ok, cover-fail
@@ -276,6 +277,7 @@ func (f *FnVC) oblige(kind, text, cond string, pos token.Pos) *Obl {
 	if f.cur != nil {
 		o.Blk = f.cur.Index
 	}
+	o.NFact = len(f.facts)
 	f.obls = append(f.obls, o)
 	return o
 }
